@@ -37,6 +37,7 @@ META = {
         "xarray model vp/mxr.py (apply_ufunc core dims, rename)", "floats treated as reals; target_data finite and strictly monotonic (the statement's precondition)", "z3 5.1 is sound",
     ],
     "assumptions": ["bypass_checks=True is only used with increasing target_data (its documented precondition)"],
+    "bounded_standins": ["native-columns[bounded]: the real kernel and wrapper on 100 / 300 concrete blocks of 1-4 columns (both directions, mixed inside a block, levels inside / outside / on the ends, both flags, log) against numpy's interpolant. Never counted as proved."],
 }
 
 
@@ -49,7 +50,55 @@ def structures(tier, seed):
     out.append({"sid": "kernel;canary;no-flip-for-decreasing", "part": "kernel", "mask": True, "byp": False, "dir": "dec", "canary": "wrong-segment"})
     out.append({"sid": "wrapper;interp_1d_linear", "part": "wrapper"})
     out.append({"sid": "xarray;linear_interpolation+transform", "part": "xarray"})
+    # [bounded] the real kernel + wrapper on concrete blocks of columns against numpy's interpolant (both directions, directions
+    # mixed inside one block, levels inside / outside / exactly on the ends, both flags, log): still decides when the symbolic rule is
+    # not applicable to a restructured kernel
+    out.append({"sid": "rnd:native-columns[bounded]", "part": "native-columns", "n": 300 if tier == "thorough" else 100, "seed": int(seed)})
     return out
+
+
+def run_native_columns(s):
+    import time
+
+    import numpy as np
+    import xgcm.transform as T
+    t0 = time.time()
+    rng = np.random.default_rng(200 + s["seed"])
+    bad, ncall = [], 0
+    for trial in range(s["n"]):
+        n, k = int(rng.integers(2, 7)), int(rng.integers(1, 5))
+        th = np.sort(rng.random((k, n)) * 9 + 0.5, axis=1)
+        if any(len(np.unique(r)) < n for r in th):
+            continue
+        flip = rng.random(k) < 0.5
+        mask, logm = bool(trial % 2), bool((trial // 2) % 2)
+        byp = bool(trial % 5 == 0)
+        if byp:
+            flip[:] = False  # bypass_checks promises increasing data
+        th = np.where(flip[:, None], th[:, ::-1], th)
+        ph = rng.random((k, n)) * 5 - 2
+        lv = np.concatenate([rng.random(4) * 11, th[0, [0, -1]], [th[0, 0] * (1 + 1e-9)]])
+        rng.shuffle(lv)
+        got = T.interp_1d_linear(ph, th, lv, mask_edges=mask, bypass_checks=byp, logarithmic=logm)
+        ncall += 1
+        f = np.log if logm else (lambda v: v)
+        for c in range(k):
+            o = np.argsort(th[c])
+            want = np.interp(f(lv), f(th[c][o]), ph[c][o])
+            if mask:
+                want = np.where((lv < th[c].min()) | (lv > th[c].max()), np.nan, want)
+            if got[c].shape != want.shape or not np.allclose(got[c], want, equal_nan=True, rtol=1e-9, atol=1e-9):
+                bad.append(f"block of {k} columns, directions {['dec' if x else 'inc' for x in flip]}, mask_edges={mask}, bypass_checks={byp}, log={logm}: column {c} "
+                           f"target_data={th[c].tolist()} data={ph[c].tolist()} levels={lv.tolist()} -> {got[c].tolist()} ; piecewise-linear interpolant {want.tolist()}")
+                break
+        if bad:
+            break
+    rec = {"fn": "transform.interp_1d_linear[bounded, real numpy]", "clause": "blocks-of-columns-agree-with-the-piecewise-linear-interpolant", "status": "failed" if bad else "proved",
+           "time": time.time() - t0, "detail": bad[0] if bad else f"{ncall} calls"}
+    if bad:
+        rec["witness"] = {"part": "native-columns", "text": bad[0]}
+    return {"sid": s["sid"], "obligations": [rec], "paths": 0, "queries": 0, "solver_time": 0.0, "engine_errors": [], "covers": {"native-columns": 1},
+            "counts": {"bounded_standin_evaluations": ncall}}
 
 
 def side_conditions():
@@ -335,7 +384,7 @@ def run_xarray(s):
 
 
 def run_structure(s):
-    return {"kernel": run_kernel, "wrapper": run_wrapper, "xarray": run_xarray}[s["part"]](s)
+    return {"kernel": run_kernel, "wrapper": run_wrapper, "xarray": run_xarray, "native-columns": run_native_columns}[s["part"]](s)
 
 
 REQUIRED_COVERS = ["post", "returned"]
@@ -348,6 +397,8 @@ def replay(ob):
     wit = ob.get("witness") or {}
     import xgcm.transform as T
     part = wit.get("part")
+    if part == "native-columns":
+        return {"confirmed": True, "text": "real kernel on a concrete block:\n" + wit.get("text", "")}
     if part == "kernel":
         rng = np.random.default_rng(5)
         bad = []
